@@ -69,7 +69,14 @@ impl FromStr for Blob {
     fn from_str(mut s: &str) -> Result<Self, Self::Err> {
         let mut v = Vec::with_capacity(s.len());
         while !s.is_empty() {
-            if let Some(ss) = s.strip_prefix("\\x") {
+            // (`Display` writes a backslash as two backslashes and a quote as two quotes)
+            if let Some(ss) = s.strip_prefix("\\\\") {
+                v.push(b'\\');
+                s = ss;
+            } else if let Some(ss) = s.strip_prefix("''") {
+                v.push(b'\'');
+                s = ss;
+            } else if let Some(ss) = s.strip_prefix("\\x") {
                 if ss.len() < 2 {
                     return Err(ParseBlobError::UnexpectedEof);
                 }
